@@ -81,7 +81,15 @@ class SIntegrator(Integrator):
                     f"{type(self).__name__} does not support running"
                     " the evolution from measurements."
                 )
-            stepper_opt["measurement_noise"] = generator.is_measurement
+            if self.N_dw != 1:
+                # The preset noise only holds the Wiener increments, not the
+                # additional stochastic integrals used by this scheme.
+                raise NotImplementedError(
+                    f"{type(self).__name__} does not support running"
+                    " the evolution from preset noise."
+                )
+            if "measurement_noise" in self._stepper_options:
+                stepper_opt["measurement_noise"] = generator.is_measurement
         elif isinstance(generator, Wiener):
             self.wiener = generator
         else:
